@@ -3,6 +3,7 @@
 Abstract skeleton (what the strategies draw, JSON): a list of the concrete segments described in
 ``vt.ref.ws`` plus
 
+    ["midls"]          "a <line-statement prefix> b" (plain text: the prefix is preceded by text on its line)
     ["foreign", k]     a look-alike of ANOTHER delimiter configuration (FOREIGN[k]); becomes plain
                        text when inert under the configuration it is instantiated for, else "f"
 
@@ -96,6 +97,9 @@ def instantiate(sk, syn):
         if k == "foreign":
             a = FOREIGN[seg[1] % len(FOREIGN)]
             out.append(["text", a if inert(a, syn) else "f"])
+        elif k == "midls":
+            # the line-statement prefix in the middle of a line, after other text: documented to be plain text
+            out.append(["text", "a " + syn["ls"] + " b" if syn.get("ls") else "a b"])
         elif k == "comment":
             body = subst(seg[3], syn)
             if syn["ce"] in body or body[:1] in "+-" or body[-1:] in "+-" or body == "":
@@ -181,6 +185,8 @@ def alpha_ws(syn):
         if c not in prefix_fc:
             atoms.append(c + " ")  # a start character followed by a safe character
             atoms.append(c + "\n")
+    if syn.get("ls"):  # the prefix after other text on the line is plain text
+        atoms += ["a " + syn["ls"] + " b", "x" + syn["ls"]]
     for cand in [syn["be"], syn["ve"], syn["ce"], "}", "%", "#", "%}", "}}", "#}", ">", "]", ")"]:
         if not (set(cand) & fc) and cand not in atoms:
             atoms.append(cand)
@@ -245,7 +251,7 @@ def seg_strategies(alpha, multiline=False, lexonly=False, lookalikes=True, raw_l
         lambda t: [["raw", t[0], t[1], t[2], t[3], t[4], t[5]]])
     d = {"text": text, "var": var, "block": block, "comment": comment, "raw": raw}
     if foreign:
-        d["foreign"] = st.integers(0, len(FOREIGN) - 1).map(lambda k: [["foreign", k]])
+        d["foreign"] = st.one_of(st.integers(0, len(FOREIGN) - 1).map(lambda k: [["foreign", k]]), st.just([["midls"]]))
     pairs = BLOCK_PAIRS + (BLOCK_PAIRS_ML if multiline else [])
 
     def mk_pair(t):
@@ -293,6 +299,7 @@ def line_skeletons(max_lines=7, foreign=False, blank=False, vt_indent=False):
     inl = [inline_text, var]
     if foreign:
         inl.append(st.sampled_from(FOREIGN_INLINE).map(lambda k: ["foreign", k]))
+        inl.append(st.just(["midls"]))
     ender = st.one_of(
         st.sampled_from(LINE_ENDERS).map(lambda s: ["text", s]),
         st.tuples(st.sampled_from(MODS2), _padded(st.sampled_from(LINE_VARS), PADS)).map(
